@@ -37,6 +37,7 @@ type Gen struct {
 	NoMap    bool
 	Alphabet string // when non-empty symbolic string bytes are restricted to it
 	Lazy     bool   // nested values are materialised on first inspection
+	EmptyNames bool // symbol, keyword and key names may be empty
 }
 
 func itoa(i int) string { return strconv.Itoa(i) }
@@ -75,6 +76,9 @@ func (g *Gen) Int(tag string) int {
 
 // Name returns a one-byte name over NameAlphabet without forking.
 func (g *Gen) Name(tag string) string {
+	if g.EmptyNames && vrt.Bool(tag+"/empty") {
+		return "" // (symbol "") and (keyword "") exist although the reader cannot write them
+	}
 	al := g.NameAlphabet
 	if al == "" {
 		al = "ab"
